@@ -122,3 +122,33 @@ def guarded(shape):
                 return shape([('check:unexpected-exception:%s@%s' % (type(e).__name__, where), repr(e)[:300])])
         return wrapper
     return deco
+
+
+LAYOUTS = ('contig', 'strided', 'column', 'reversed', 'bigendian', 'float32', 'readonly')
+
+
+def layout(a, name):
+    """The same values as the 1-D float64 array a in another memory layout / dtype (float32 rounds the values)."""
+    a = np.asarray(a, dtype=np.float64)
+    if name == 'contig':
+        return a.copy()
+    if name == 'strided':           # every second element of a doubled array
+        return np.repeat(a, 2)[::2]
+    if name == 'column':            # a column of a C-ordered 2-D array
+        m = np.zeros((len(a), 3))
+        m[:, 1] = a
+        return m[:, 1]
+    if name == 'reversed':          # negative stride; embedded in a zero-padded buffer so that code which wrongly walks
+        n = len(a)                  # the memory with a positive stride still reads defined (deterministic) values
+        base = np.zeros(3 * n)
+        base[n:2 * n] = a[::-1]
+        return base[n:2 * n][::-1]
+    if name == 'bigendian':
+        return a.astype('>f8')
+    if name == 'float32':
+        return a.astype(np.float32)
+    if name == 'readonly':
+        r = a.copy()
+        r.setflags(write=False)
+        return r
+    raise ValueError(name)
